@@ -479,7 +479,11 @@ impl G<'_> {
             16 => format!("const s{i} = <Comp>{{{}}}</Comp>;", pick(self.r, &["foo", "foo()", "a.b", "_slot", "x ? y : z", "[1]", "{ default: () => 1 }", "() => 1", "`t`", "null", "this", "await_", "x = 1", "f(<b/>)"])),
             17 => format!("function outer{i}() {{ const a = <A>{{f()}}</A>; function inner() {{ return <B>{{g()}}</B> }} return [a, inner, {}] }}", self.jsx(d)),
             18 => format!("switch (k) {{ case 1: {{ r = {}; break }} default: r = {} }}", self.jsx(d), self.jsx(1)),
-            19 => format!("try {{ t = {} }} catch (e) {{ t = {} }} finally {{ u = {} }}", self.jsx(1), self.jsx(1), self.jsx(1)),
+            19 => match self.r.below(4) {
+                0 => format!("function d{i}() {{ 'use strict' }} const e{i} = () => {{ 'use strict'; }}; {{ 'a'; 'b'; }}"),
+                1 => format!("function d{i}() {{ 'use strict'; return {}; }}", self.jsx(d)),
+                _ => format!("try {{ t = {} }} catch (e) {{ t = {} }} finally {{ u = {} }}", self.jsx(1), self.jsx(1), self.jsx(1)),
+            },
             20 => match self.r.below(6) {
                 0 => format!("label{i}: while (c) {{ const l = {}; break label{i} }}", self.jsx(d)),
                 1 => format!("const t{i} = `a${{{}}}b`; const u{i} = tag`x${{{}}}`;", self.jsx(d), self.jsx(1)),
@@ -512,6 +516,7 @@ pub fn options(r: &mut Rng) -> String {
         4 => parts.push("\"customElementPatterns\":[\"^foo$\",\"bar\",\"^unknown-\"]".into()),
         5 => parts.push("\"customElementPatterns\":[\"(?i)^el\",\"\",\"\\\\p{L}-\"]".into()),
         6 => parts.push("\"customElementPatterns\":[\"^(?:x|my|font)-\",\"^[A-Z]$\",\"é\"]".into()),
+        7 => parts.push(format!("\"customElementPatterns\":[\"{}\"]", ["/^x-/", "/^x-/i", "(?i)^x-", "^X-", " ^x-", "(^x-)", "^x-$", "^x-|^x-"][r.below(8)])),
         _ => {}
     }
     match r.below(10) {
@@ -548,6 +553,12 @@ pub fn module_like(r: &mut Rng, ts: bool) -> GenModule {
         4 => lines.push("/* @jsx */".into()),
         5 => lines.push("/*\n * @jsx   spaced   \n */".into()),
         6 => lines.push("/* @jsxFrag F */ /* @jsx a.b */".into()),
+        _ => {}
+    }
+    // a directive prologue
+    match g.r.below(12) {
+        0 => lines.push("'use strict';".into()),
+        1 => lines.push("'use client';\n\"use strict\";".into()),
         _ => {}
     }
     // imports
